@@ -95,6 +95,11 @@ func (p *pacer) TimeUntilSend() monotime.Time {
 	}
 	diff := 1e9 * uint64(p.maxDatagramSize-p.budgetAtLastSent)
 	bw := p.adjustedBandwidth()
+	if bw == 0 {
+		// The bandwidth estimate rounds down to zero bytes per second (an RTT estimate of hours):
+		// the budget is never refilled. Don't divide by zero; check again later.
+		return p.lastSentTime.Add(time.Hour)
+	}
 	// We might need to round up this value.
 	// Otherwise, we might have a budget (slightly) smaller than the datagram size when the timer expires.
 	d := diff / bw
